@@ -807,7 +807,7 @@ func main() {
 			}
 			step = 193
 			if o.Tier == "thorough" {
-				step = 7
+				step = 13
 			}
 		}
 		off := 0
